@@ -63,7 +63,16 @@ func (p *pp) Print(args ...interface{}) {
 	np := newPrinter()
 	np.buf = p.buf
 	np.override = p.override
+	// The nested printer writes into p's storage. Take the buffer back
+	// also when a panic propagates out of doPrint (a panic raised while
+	// a panic value was being printed): p keeps printing afterwards.
+	defer p.endNested(np)
 	np.doPrint(args)
+}
+
+// endNested takes the buffer back from a nested printer and releases the
+// printer.
+func (p *pp) endNested(np *pp) {
 	p.buf = np.buf
 	np.buf = buffer{}
 	np.override = noOverride
@@ -75,11 +84,8 @@ func (p *pp) Printf(format string, arg ...interface{}) {
 	np := newPrinter()
 	np.buf = p.buf
 	np.override = p.override
+	defer p.endNested(np)
 	np.doPrintf(format, arg)
-	p.buf = np.buf
-	np.buf = buffer{}
-	np.override = noOverride
-	np.free()
 }
 
 func (p *pp) UnsafeString(s string) {
